@@ -69,7 +69,8 @@ theorem resume_hf (c : Cfg) (v : Option Val) : HFrame c (resume c v).1 := by
   · exact deliver_hf c _
   · exact HFrame.rfl' c
 
-theorem onWait_ready (c : Cfg) (R : List Cb) : onWait { c with ready := R } = { onWait c with ready := R } := by
+def setReady (c : Cfg) (R : List Cb) : Cfg := { c with ready := R }
+theorem onWait_ready (c : Cfg) (R : List Cb) : onWait (setReady c R) = setReady (onWait c) R := by
   cases c
   rename_i st _ _ _ _ _ _ _ _ _ _ _ _ _ _ _ _ _ _ _ _ _ _ _ _
   cases st <;> rfl
@@ -168,3 +169,151 @@ theorem awaitableDone_hf (c : Cfg) (f : Nat) : HFrame c (awaitableDone c f) := b
       · exact HFrame.trans (h1 _) (deliver_hf _ _)
       · exact h1 _
   · exact onOld_hf c
+
+theorem onWait_readyEq (c : Cfg) : (onWait c).ready = c.ready := by
+  cases hst : c.st with
+  | waiting fn wf wk aw => rw [onWait_waiting c fn wf wk aw hst]
+  | _ => unfold onWait; rw [hst]
+
+theorem tickCb_adone_eq (c : Cfg) (f : Nat) : tickCb c (.adone f) =
+    if c.ready.contains (.adone f) then awaitableDone (setReady c (c.ready.erase (.adone f))) f else c := rfl
+theorem tickCb_usercb_eq (c : Cfg) : tickCb c (.usercb false) =
+    if c.ready.contains (.usercb false) then setReady c (c.ready.erase (.usercb false)) else c := by
+  unfold tickCb; split
+  · simp only [Bool.false_eq_true, if_false]; rfl
+  · rfl
+
+theorem tickCb_adone_onWait (c : Cfg) (f : Nat) : tickCb (onWait c) (.adone f) = onWait (tickCb c (.adone f)) := by
+  rw [tickCb_adone_eq, tickCb_adone_eq, onWait_readyEq]
+  split
+  · rw [← awaitableDone_onWait, onWait_ready]
+  · rfl
+
+theorem tickCb_adone_hf (c : Cfg) (f : Nat) : HFrame c (tickCb c (.adone f)) := by
+  unfold tickCb; split
+  · exact HFrame.trans (show HFrame c { c with ready := c.ready.erase (.adone f) } from ⟨rfl, rfl, rfl, rfl⟩)
+      (awaitableDone_hf _ f)
+  · exact HFrame.rfl' c
+
+theorem tickCb_usercb_onWait (c : Cfg) : tickCb (onWait c) (.usercb false) = onWait (tickCb c (.usercb false)) := by
+  rw [tickCb_usercb_eq, tickCb_usercb_eq, onWait_readyEq]
+  split
+  · rw [onWait_ready]
+  · rfl
+
+theorem tickCb_usercb_hf (c : Cfg) : HFrame c (tickCb c (.usercb false)) := by
+  unfold tickCb; split
+  · exact ⟨rfl, rfl, rfl, rfl⟩
+  · exact HFrame.rfl' c
+
+/-! ### the phase `LagW` -/
+
+/-- the run with pauses is suspended on a pause future at a step boundary in WAITING, and the reference run is suspended on
+that wait: through the view `onWait` both are at the same point -/
+structure LagW (c d : Cfg) : Prop where
+  pc : isAwaitPaused c.pc = true
+  wait : isWaiting c.st = true
+  stepping : c.stepping = false
+  int : c.interrupt = none
+  view : InStep (onWait c) d
+
+theorem LagW.hframe {c c' d d' : Cfg} (h : LagW c d) (f : HFrame c c') (hv : InStep (onWait c') d') : LagW c' d' :=
+  ⟨by rw [f.1]; exact h.pc, by rw [f.2.2.2]; exact h.wait, by rw [f.2.1]; exact h.stepping, by rw [f.2.2.1]; exact h.int, hv⟩
+
+theorem resume_lagW (c d : Cfg) (v : Option Val) (h : LagW c d) : LagW (resume c v).1 (resume d v).1 :=
+  h.hframe (resume_hf c v) (by rw [← resume_onWait]; exact resume_inStep _ _ v h.view)
+theorem complete_lagW (c d : Cfg) (f : Nat) (o : EFut) (h : LagW c d) : LagW (complete c f o) (complete d f o) :=
+  h.hframe (complete_hf c f o) (by rw [← complete_onWait]; exact complete_inStep _ _ f o h.view)
+theorem tickCb_adone_lagW (c d : Cfg) (f : Nat) (h : LagW c d) : LagW (tickCb c (.adone f)) (tickCb d (.adone f)) :=
+  h.hframe (tickCb_adone_hf c f) (by rw [← tickCb_adone_onWait]; exact tickCb_adone_inStep _ _ f h.view)
+theorem tickCb_usercb_lagW (c d : Cfg) (h : LagW c d) : LagW (tickCb c (.usercb false)) (tickCb d (.usercb false)) :=
+  h.hframe (tickCb_usercb_hf c) (by rw [← tickCb_usercb_onWait]; exact tickCb_usercb_inStep _ _ h.view)
+theorem callSoon_lagW (c d : Cfg) (r : Bool) (h : LagW c d) :
+    LagW { c with ready := c.ready ++ [.usercb r] } { d with ready := d.ready ++ [.usercb r] } := by
+  refine h.hframe ⟨rfl, rfl, rfl, rfl⟩ ?_
+  have e : onWait { c with ready := c.ready ++ [.usercb r] } = setReady (onWait c) ((onWait c).ready ++ [.usercb r]) := by
+    rw [onWait_readyEq]; exact onWait_ready c _
+  rw [e]
+  exact callSoon_inStep _ _ r h.view
+
+/-! ### pause and play while held on a wait -/
+
+theorem onWait_interrupt (c : Cfg) : (onWait c).interrupt = c.interrupt := by
+  cases hst : c.st with
+  | waiting fn wf wk aw => rw [onWait_waiting c fn wf wk aw hst]
+  | _ => unfold onWait; rw [hst]
+
+theorem onWait_paused (c : Cfg) (h : isWaiting c.st = true) : (onWait c).paused = none := by
+  cases hst : c.st with
+  | waiting fn wf wk aw => rw [onWait_waiting c fn wf wk aw hst]
+  | _ => rw [hst] at h; cases h
+
+theorem onWait_setPc (c : Cfg) (p : Pc) (h : isWaiting c.st = true) : onWait { c with pc := p } = onWait c := by
+  cases c
+  rename_i st _ _ _ _ _ _ _ _ _ _ _ _ _ _ _ _ _ _ _ _ _ _ _ _
+  cases st <;> first | rfl | (simp [isWaiting] at h)
+
+theorem onWait_pframe {c c' : Cfg} (f : PFrame c c') : PFrame (onWait c) (onWait c') := by
+  obtain ⟨g1, g2, g3, g4, g5, g6, g7, g8, g9, g10, g11, g12, g13, g14, g15⟩ := sh_fields f.1
+  cases hst : c.st with
+  | waiting fn wf wk aw =>
+    have hst' : c'.st = .waiting fn wf wk aw := by rw [f.2.1]; exact hst
+    rw [onWait_waiting c fn wf wk aw hst, onWait_waiting c' fn wf wk aw hst']
+    refine ⟨?_, f.2.1, f.2.2.1, rfl⟩
+    rw [sh_eq_iff]; simp [*]
+  | _ =>
+    have e : onWait c = c := by unfold onWait; rw [hst]
+    have e' : onWait c' = c' := by unfold onWait; rw [f.2.1, hst]
+    rw [e, e']; exact f
+
+theorem LagW.pframe {c c' d : Cfg} (h : LagW c d) (f : PFrame c c') (hi : c'.interrupt = none) : LagW c' d := by
+  have hw : isWaiting c'.st = true := by rw [f.2.1]; exact h.wait
+  refine ⟨by rw [f.2.2.2]; exact h.pc, hw, by rw [(sh_fields f.1).1]; exact h.stepping, hi, ?_⟩
+  exact h.view.frame (onWait_pframe f) (IntOk.of_none (by rw [onWait_interrupt]; exact hi))
+    (fun _ => by rw [onWait_interrupt]; exact hi) (fun _ => onWait_paused c' hw)
+
+theorem onWait_killing (c : Cfg) : (onWait c).killing = c.killing := by
+  cases hst : c.st with
+  | waiting fn wf wk aw => rw [onWait_waiting c fn wf wk aw hst]
+  | _ => unfold onWait; rw [hst]
+
+theorem pause_lagW (c d : Cfg) (h : LagW c d) : LagW (pause c).1 d := by
+  have hk : c.killing = none := by rw [← onWait_killing]; exact h.view.core.ckill
+  rcases pause_shape c hk with b | ⟨_, he⟩ | ⟨hs, _, _⟩
+  · exact h.pframe b.1 (by rw [b.2.1]; exact h.int)
+  · rw [he]; exact h.pframe (doPauseHooks_pf c) h.int
+  · rw [h.stepping] at hs; cases hs
+
+theorem play_lagW (c d : Cfg) (h : LagW c d) : LagW (play c).1 d := by
+  obtain ⟨f, hi, _, _⟩ := play_shape c
+  exact h.pframe f (by rw [hi]; exact h.int)
+
+/-! ### from `Lag` to `LagW`: the reference run that ran ahead of a pending wait is suspended on it -/
+
+theorem inStep_onWait_intro (c d0 : Cfg) (hm : Mid c d0) (fn wf wf' : Nat) (wk aw)
+    (hst : c.st = .waiting fn wf wk aw) (hst' : d0.st = .waiting fn wf' none aw) :
+    InStep (onWait c) { d0 with stepping := true, pc := .awaitWaiting wf' } := by
+  rw [onWait_waiting c fn wf wk aw hst]
+  refine ⟨⟨?_, hm.core.st, hm.core.ckill, hm.core.dint, hm.core.dpaused⟩, IntOk.of_none hm.int,
+    ⟨fn, wk, aw, wf', hst, hst', rfl⟩, fun _ => ⟨rfl, rfl⟩, fun h => by simp [isRunningPc] at h⟩
+  obtain ⟨g1, g2, g3, g4, g5, g6, g7, g8, g9, g10, g11, g12, g13, g14, g15⟩ := sh_fields hm.core.sh
+  rw [sh_eq_iff]; simp [*]
+
+theorem lag_to_lagW (P : Prog) (c d : Cfg) (h : Lag P c d) (hI : Inv c) (fn wf : Nat) (wk aw)
+    (hst : c.st = .waiting fn wf wk aw) (hw : c.wfs[wf]? = some .pending) : LagW c d := by
+  obtain ⟨hap, d0, n, hn, hD, hd, hm⟩ := h
+  obtain ⟨n', rfl⟩ : ∃ n', n = n' + 1 := by
+    cases n with
+    | zero => simp [loopDone] at hD
+    | succ n' => exact ⟨n', rfl⟩
+  obtain ⟨wf', w, hwk, hst', hcw, hdw, hni⟩ := hm.core.st.waiting_inv hst
+  rw [hw] at hcw; cases hcw
+  have hlc : terminal c.st.label = false := by rw [hst]; simp [SObj.label, terminal, allowed]
+  have hld : terminal d0.st.label = false := by rw [hst']; simp [SObj.label, terminal, allowed]
+  have hcl : d0.closed = false := by
+    rw [← (sh_fields hm.core.sh).2.2.2.1]; exact not_closed_of_live hI hlc
+  have hd' : d = { d0 with stepping := true, pc := .awaitWaiting wf' } := by
+    rw [hd, loopHead_go P n' d0 hm.ncd hld hcl (not_held_of_none hm.core.dpaused),
+      stepBodyK_waiting_pending P _ d0 fn wf' none aw hst' hdw]
+  rw [hd']
+  exact ⟨hap, by rw [hst]; rfl, hm.stepping, hm.int, inStep_onWait_intro c d0 hm fn wf wf' wk aw hst hst'⟩
